@@ -1897,6 +1897,10 @@ class _gpg_multivalued(_multivalued):
                     args = tuple(argsl)
                 except IndexError:
                     kwargs["sequence"] = lines
+                if len(args) < 4:
+                    # the lines are bytes in this encoding now (see above), so
+                    # that is what they have to be decoded with
+                    kwargs["encoding"] = encoding
 
         _multivalued.__init__(self, *args, **kwargs)
 
